@@ -219,8 +219,7 @@ def case_skel(ctx, case):
         # ---- (1) bytes written == Lean encoder
         ans = ctx.ask(f"c14.enc_skel {1 if radius else 0} | {rows_payload(ids, parents, xyz, rad)}")
         m_hex, m_par, _ = ans.split('|')
-        if not huge:
-            ctx.corr(raw.hex(), m_hex, '_write_skeleton bytes vs Lean encodeSkel(toSkel table)', case)
+        ctx.corr(raw.hex(), m_hex, '_write_skeleton bytes vs Lean encodeSkel(toSkel table)', case)
         ctx.corr(','.join(map(str, exp_par)), m_par, 'expected parent column (row indices) vs Lean relabelByRow', case)
         # ---- (2) independent Lean decoder on navis' bytes, attribute layout from navis' own info file
         specs = info.get('vertex_attributes', [])
@@ -701,9 +700,8 @@ def case_batch(ctx, case):
         sig = None
         if fmt in ('obj', 'ply', 'stl', 'off') and errors != 'raise' and not all(flags):
             sig = 'MeshReader.format_output/None-not-filtered'
-        if sig is None:
-            ctx.corr(impl, model, f'batch read ({fmt}, {container}, errors={errors}, parallel={parallel}) vs Lean policy model '
-                                  f'(readable flags {flags})', case)
+        ctx.corr(impl, model, f'batch read ({fmt}, {container}, errors={errors}, parallel={parallel}) vs Lean policy model '
+                              f'(readable flags {flags})', case)
         # ---- oracle, independent of the model
         nbad = flags.count(False)
         if errors == 'raise':
@@ -870,7 +868,7 @@ def case_nrrd_dp(ctx, case):
         ctx.oracle(np.array_equal(res.points, dp.points) and np.allclose(res.vect, dp.vect), 'navis NRRD round trip of Dotprops: points/vect differ', case)
         model = ctx.ask(f'c14.nrrd dotprops {int(mags[0] * 4)} {int(mags[1] * 4)} {int(mags[2] * 4)}').split()[1]
         got = tuple(float(v) for v in np.asarray(res.units_xyz.magnitude).reshape(-1))
-        ctx.corr(':'.join(str(int(v)) for v in got), model, 'Dotprops units magnitude read back vs Lean nrrdReadDotpropsUnits', case)
+        ctx.corr(':'.join(str(int(v * 4)) for v in got), model, 'Dotprops units magnitude read back vs Lean nrrdReadDotpropsUnits (×4)', case)
         same = got == tuple(float(m) for m in mags) and str(res.units_xyz.units) == uname
         ctx.oracle(same, f'NRRD round trip of Dotprops: units {units!r} come back as {res.units} with unchanged points '
                          f'(physical size changes by {mags})', case,
